@@ -46,7 +46,7 @@ def colState (c : Colour) (stroke : Bool) : List Op :=
   | .rgb => [.rgb c.k1 c.k2 c.k3 stroke]
   | .labD65 => [.scn [c.k1, c.k2, c.k3] none stroke, .cs "lab-d65" stroke]
   | .labD50 => [.scn [c.k1, c.k2, c.k3] none stroke, .cs "lab-d50" stroke]
-  | .other => [.rgb c.c1 c.c2 c.c3 stroke]
+  | .other => [.rgb c.c1.orZero c.c2.orZero c.c3.orZero stroke]
 
 /-- Fold of `applyOp` over operators emitted in order. -/
 def applyOps (os : List Op) (st : GStk) : GStk := os.foldl (fun acc o => applyOp o acc) st
@@ -501,15 +501,6 @@ theorem sim_setFont {cols : List Colour} {r : Res} {sc sn : SState} (h : Sim col
       simp [SState.emit] at hg; subst hg; rfl
 
 
-/-- Calls after which the caches of `Stream` still mirror the graphics state: everything except the three ways of
-changing colour / alpha behind the caches' back (`set_color_space`, `set_color_special`, and `set_state` with a
-dictionary that sets `ca` / `CA` — which is what `set_alpha_state` does). -/
-def Call.cacheSafe : Call → Bool
-  | .setState d => d.ca.isNone && d.CA.isNone
-  | .setColorSpace .. => false
-  | .setColorSpecial .. => false
-  | _ => true
-
 /-- tinycss2's conversion is a function of the colour: equal cache keys give equal operators. -/
 def Consistent (cols : List Colour) : Prop :=
   ∀ c c', c ∈ cols → c' ∈ cols → c'.key = c.key →
@@ -532,6 +523,27 @@ theorem setState_inert_sim {cols : List Colour} {r : Res} {sc sn : SState} (h : 
   · intro k hk; exact h'.aF k hk
   · intro k hk; exact h'.aS k hk
   · intro f hf; exact h'.font f hf
+
+/-- `set_alpha_state` (as repaired): the graphics state gets `ca 1`, and the fill-alpha cache claims nothing. -/
+theorem softMaskState_sim {cols : List Colour} {r : Res} {sc sn : SState} (h : Sim cols r sc sn) :
+    Sim cols (softMaskState r sc).2 (softMaskState r sc).1 (softMaskState r sn).1 ∧
+    (softMaskState r sc).2 = (softMaskState r sn).2 := by
+  refine ⟨?_, rfl⟩
+  have h' := h.res_mono (addG_le r (.s r.extG.length) softMaskDict)
+  have hn : (softMaskState r sn).1 =
+      { sn.emitAll [.gs (.s r.extG.length) softMaskDict] with alphaF := none } := rfl
+  have hs : Sim cols (r.addG (.s r.extG.length) softMaskDict)
+      ({ sc with alphaF := none }.emit (.gs (.s r.extG.length) softMaskDict))
+      (sn.emitAll [.gs (.s r.extG.length) softMaskDict]) := by
+    refine h'.emit_set [.gs (.s r.extG.length) softMaskDict] (applyG softMaskDict) (fun st => rfl)
+      (by simp [Op.isPaint]) (by simp) (by simp) _ rfl rfl rfl rfl ?_ ?_ ?_ ?_ ?_
+    · intro k hk; simpa [applyG, softMaskDict] using h'.colF k hk
+    · intro k hk; simpa [applyG, softMaskDict] using h'.colS k hk
+    · intro k hk; simp [SState.emit] at hk
+    · intro k hk; simpa [applyG, softMaskDict] using h'.aS k hk
+    · intro f hf; simpa [applyG, softMaskDict] using h'.font f hf
+  rw [hn]
+  exact ⟨hs.g, hs.p, hs.ctm, hs.mark, hs.marked, hs.colF, hs.colS, hs.aF, hs.aS, hs.font, hs.old⟩
 
 theorem emitAll_inert_sim {cols : List Colour} {r : Res} {sc sn : SState} (h : Sim cols r sc sn) (os : List Op)
     (ho : ∀ o ∈ os, o.inert = true) : Sim cols r (sc.emitAll os) (sn.emitAll os) := by
@@ -629,6 +641,13 @@ theorem step_sim (cols : List Colour) (hcons : Consistent cols) {r : Res} {sc sn
     obtain ⟨rfl, rfl⟩ := hstep
     simp [Call.cacheSafe] at hsafe
     exact ⟨_, by simp [stepNaive, stepS, setState], setState_inert_sim h d (by simpa using hsafe.1) (by simpa using hsafe.2)⟩
+  | softMaskState =>
+    simp only [stepS] at hstep; simp at hstep
+    obtain ⟨h1, e1⟩ := softMaskState_sim (r := r) h
+    have hs : sc' = (softMaskState r sc).1 := by rw [hstep]
+    have hr : r' = (softMaskState r sc).2 := by rw [hstep]
+    subst hs hr
+    exact ⟨(softMaskState r sn).1, by simp [stepNaive, stepS, e1], h1⟩
   | setBlendMode mode =>
     simp only [stepS, setState] at hstep; simp at hstep
     obtain ⟨rfl, rfl⟩ := hstep
